@@ -10,6 +10,14 @@ def unitP (ofName : String → Option β) : P β := do
   | some u => pure u
   | none => failure
 
+/-- a double, `nan` included (table rows may be NaN) -/
+def floatNan : P Float := do
+  let t ← next
+  if t == "nan" then pure (0.0 / 0.0)
+  else match floatOfTok t with
+    | some x => pure x
+    | none => failure
+
 abbrev Key := List Int
 
 /-- `n` | `s capacity k p1 … pk` -/
@@ -39,7 +47,7 @@ def recP : P (PredRecord Float × Option (Cache Key Float)) := do
     pure ({ rate := fun s g => a0 + a1 * s + a2 * g, speedUnit := su, gradeUnit := gu, rateUnit := ru,
             idealRate := ideal, adjustment := adj }, c)
   | "tbl" => do
-    let tbl ← listOf (do let s ← float; let g ← float; let r ← float; pure (s, g, r))
+    let tbl ← listOf (do let s ← floatNan; let g ← floatNan; let r ← floatNan; pure (s, g, r))
     let ideal ← optOf float
     let sweep ← listOf float
     let adj ← optOf float
@@ -163,19 +171,24 @@ def routeCase : P String := do
       pure (kind, v0.updateFromQuery q, caches, "", false))
   -- service
   let tmsu ← unitP SpeedUnit.ofName?
-  let gt ← optOf (listOf float)
+  let gt ← optOf (listOf floatNan)
   let gu ← unitP GradeUnit.ofName?
   let sdu ← if cfg then optOf (unitP DistanceUnit.ofName?) else (do let u ← unitP DistanceUnit.ofName?; pure (some u))
-  let svc : Service Float := Service.ofConfig tmsu gt gu sdu
+  -- configured: the grade file goes through the reader (a row that is not a finite number fails the build)
+  let gtRes : Except Err (Option (List Float)) :=
+    if cfg then loadGradeTable (gt.map fun l => l.map fun x => if x.isFinite then Row.val x else Row.nan)
+    else .ok gt
+  let gradesOk := match gtRes with | .ok _ => true | .error _ => false
+  let svc : Service Float := Service.ofConfig tmsu (match gtRes with | .ok g => g | .error _ => none) gu sdu
   -- time model engine
-  let tbl ← listOf float
+  let tbl ← listOf floatNan
   let esu ← unitP SpeedUnit.ofName?
   let edu ← if cfg then optOf (unitP DistanceUnit.ofName?) else (do let u ← unitP DistanceUnit.ofName?; pure (some u))
   let etu ← if cfg then optOf (unitP TimeUnit.ofName?) else (do let u ← unitP TimeUnit.ofName?; pure (some u))
   -- built in-process the engine is a struct literal (only `get_max_speed` is called); configured, the
   -- table goes through the file reader first
   let engRes : Except Err (SpeedEngine Float × Float) :=
-    if cfg then SpeedEngine.ofConfig tbl esu edu etu
+    if cfg then SpeedEngine.ofConfig (tbl.map fun x => if x.isNaN then Row.nan else Row.val x) esu edu etu
     else match getMaxSpeed tbl with
       | .error e => .error e
       | .ok m => .ok ({ speedTable := tbl, speedUnit := esu, distanceUnit := edu.getD baseDistanceUnit,
@@ -190,12 +203,16 @@ def routeCase : P String := do
   let bcd ← float
   let hm ← if cfg then optOf float else (do let x ← float; pure (some x))
   let socOverride ← optOf float
+  let socFormat ← optOf next
   endOfLine
-  match configReadable malformed, engRes, vres with
+  match configReadable (malformed || !gradesOk), engRes, vres with
   | .error _, _, _ => pure "engine_rejected"
   | .ok _, .error _, _ => pure "engine_rejected"
   | .ok _, .ok _, .error _ => pure (built ++ "rejected")
   | .ok _, .ok (eng, maxSpeed), .ok v =>
+    match stateFeaturesAccepted socFormat.isSome with
+    | .error _ => pure (built ++ "rejected")
+    | .ok _ =>
     let s0 := v.initialStateWith socOverride
     let noCache := caches.main.isNone && caches.sustain.isNone
     let rec go (es : List (Edge Float)) (st : VState Float × Caches Key Float) (acc : List String) :
